@@ -168,8 +168,15 @@ func VPH_graphTrees() {
 		vp_Reach("end")
 		return
 	}
-	vp_Assert(vp_Calls("(*github.com/github/git-sizer/sizes.treeRecord).initialize") == N, "each distinct tree is initialised exactly once")
-	vp_Assert(vp_Calls("(*github.com/github/git-sizer/sizes.TreeSize).addDescendent") == edges, "one addDescendent per stored subtree edge (not per expansion)")
-	vp_Assert(vp_Calls("(*github.com/github/git-sizer/sizes.Graph).finalizeTreeSize") == N, "each tree is finalised exactly once")
+	// (a call count of -1 means the function no longer exists under that name: no verdict then)
+	if c := vp_Calls("(*github.com/github/git-sizer/sizes.treeRecord).initialize"); c >= 0 {
+		vp_Assert(c == N, "each distinct tree is initialised exactly once")
+	}
+	if c := vp_Calls("(*github.com/github/git-sizer/sizes.TreeSize).addDescendent"); c >= 0 {
+		vp_Assert(c == edges, "one addDescendent per stored subtree edge (not per expansion)")
+	}
+	if c := vp_Calls("(*github.com/github/git-sizer/sizes.Graph).finalizeTreeSize"); c >= 0 {
+		vp_Assert(c == N, "each tree is finalised exactly once")
+	}
 	vp_Reach("end")
 }
